@@ -1,3 +1,5 @@
+use std::cell::Cell;
+use std::marker::PhantomData;
 use std::panic;
 use std::sync::atomic::{AtomicBool, AtomicUsize, Ordering};
 use std::sync::Arc;
@@ -159,6 +161,14 @@ impl Drop for EventSender<'_> {
 }
 
 /// cqueue interface for general select model
+///
+/// only the owner of the cqueue can `add` to it and `poll` it, it can't be shared
+/// with other coroutines or threads
+///
+/// ```compile_fail
+/// fn is_sync<T: Sync>() {}
+/// is_sync::<may::cqueue::Cqueue>();
+/// ```
 pub struct Cqueue {
     // the mpsc queue that transfer event
     ev_queue: Queue<Event>,
@@ -172,6 +182,10 @@ pub struct Cqueue {
     total: AtomicUsize,
     // panic status
     is_panicking: AtomicBool,
+    // the event queue has a single consumer and `add`/`poll` take `&self`: only the owner
+    // of the cqueue may use it, so it must not be `Sync` (all its other fields are).
+    // the select coroutines only reach it through their `EventSender`
+    _not_sync: PhantomData<Cell<()>>,
 }
 
 impl Cqueue {
@@ -381,6 +395,7 @@ where
         selectors: Mutex::new(Vec::new()),
         total: AtomicUsize::new(0),
         is_panicking: AtomicBool::new(false),
+        _not_sync: PhantomData,
     };
     f(&cqueue)
 }
